@@ -150,7 +150,10 @@ def make_case(seed, i):
         for j in range(rng.randint(1, 2)):
             fr = rng.fork("fault", j)
             if fr.chance(0.5):
-                faults.append({"op": "open", "path": fr.choice(sorted(files0)), "exact": True, "nth": fr.randint(2, 6), "errno": "EIO", "until": n_total})
+                # model files only: while a manifest cannot be read yardl cannot know which directories to
+                # watch, and an edit made there in the meantime is legitimately missed
+                cands = [p for p in sorted(files0) if not p.endswith("/_package.yml")]
+                faults.append({"op": "open", "path": fr.choice(cands), "exact": True, "nth": fr.randint(2, 6), "errno": "EIO", "until": n_total})
             else:
                 faults.append({"op": "write", "path": "/w/out", "nth": fr.randint(5, 200), "errno": "ENOSPC", "until": n_total})
     doc = {"files": files0, "cwd": "/w/pkg", "edits": edits, "sched": sched, "faults": faults,
@@ -178,9 +181,10 @@ def execute(sim, doc):
     """Returns (violation record or None, stats)."""
     spec = {"mode": "watch", "files": doc["files"], "cwd": doc["cwd"], "args": ["generate", "--watch"],
             "edits": doc["edits"], "faults": copy.deepcopy(doc.get("faults", [])), "max_steps": 30000, "settle_ms": 60000}
+    if not doc["edits"]:
+        spec["faults"] = []                  # faults are transient: with no edit after them nothing can re-trigger a regeneration
     for f in spec["faults"]:
-        if f.get("until"):
-            f["until"] = len(doc["edits"])   # faults stop before the final edit, also after minimisation
+        f["until"] = len(doc["edits"])       # faults stop before the final edit, also after minimisation
     spec.update(doc["sched"])
     st = {"runs": 1}
     res = sim.run(spec, mapseed=doc["mapseed"])
